@@ -544,7 +544,12 @@ def run_cli_many(jobs, release=False, timeout=60):
         argv, data = job[0], job[1]
         cpus = job[2] if len(job) > 2 else None      # optional: the set of CPUs the process may run on
         try:
-            pre = (lambda: os.sched_setaffinity(0, cpus)) if cpus else None
+            def _confine():
+                try:
+                    os.sched_setaffinity(0, cpus)
+                except OSError:
+                    pass            # not permitted here: the run is then an ordinary one
+            pre = _confine if cpus else None
             p = subprocess.run([binary] + list(argv), input=data, capture_output=True, timeout=timeout, env=ENV, preexec_fn=pre)
             return (p.returncode, p.stdout, p.stderr)
         except subprocess.TimeoutExpired:
